@@ -111,7 +111,7 @@ def member_extents(F, S):
     defs = alias_defs(fn)
     a = [resolve(x, defs) for x in sl.args()]
     rd = ("mem", ("this",), "archiveFileReader")
-    hdr = ("call", VOL + "::GetSectionHeader", ("this",), (idx_t(fn),))
+    hdr = F.call_value(VOL + "::GetSectionHeader", ("this",), (idx_t(fn),))
     n += 1
     req = "the slice starts at the reader position left by GetSectionHeader(index) and has that header's length"
     good = sl.obj() == rd and a[0] == ("call", NS + "FileReader::Position", rd, ()) and a[1] == ("mem", hdr, "length")
@@ -127,7 +127,7 @@ def member_extents(F, S):
     sl = find_slice(fn, 1)
     defs = alias_defs(fn)
     a = [resolve(x, defs) for x in sl.args()]
-    hdr = ("call", VOL + "::GetSectionHeader", ("this",), (idx_t(fn),))
+    hdr = F.call_value(VOL + "::GetSectionHeader", ("this",), (idx_t(fn),))
     n += 1
     req = "the extracted slice starts at the position left by GetSectionHeader(index) and has that header's length"
     wr = [nd for nd in fn.nodes if nd["k"] == "CXXMemberCallExpr" and nd.get("fname") == "Write"]
@@ -141,12 +141,19 @@ def member_extents(F, S):
     else:
         out.append(bad("R-COPYEXT", VOL + "::ExtractFileUncompressed#extent", sl.loc(), fn.qn, req, "Slice(%s); copied source matches: %s" % (fmt_term(a[0]), src_ok)))
     # GetSectionHeader: absolute seek to the recorded block offset precedes the header read, tag is compared
-    fn = F.fn(VOL + "::GetSectionHeader", nparams=1)
+    fn0 = F.fn(VOL + "::GetSectionHeader", nparams=1)
     eng = Engine(F, S)
-    eng.analyze(fn, frozenset())
-    reads = [nd for nd in fn.nodes if nd["k"] == "CXXMemberCallExpr" and nd.get("fname") == "Read" and fn.term(nd.get("obj", -1)) == rd]
-    if len(reads) != 1:
+    eng.analyze(fn0, frozenset())
+    # the block-header read, in GetSectionHeader or in a helper of the class it was split into (judged with what is known
+    # where it is reached from GetSectionHeader)
+    from ..through import closure
+    cands = [(f_, nd) for f_ in closure(F, fn0, depth=2) for nd in f_.nodes
+             if nd["k"] == "CXXMemberCallExpr" and nd.get("fname") == "Read" and "obj" in nd and f_.term(nd["obj"]) == rd
+             and final_site_facts(eng, f_, nd["id"]) is not None]
+    if len(cands) != 1:
         raise AnalysisBroken("GetSectionHeader: expected one Read on archiveFileReader")
+    fn, rd0 = cands[0]
+    reads = [rd0]
     site = final_site_facts(eng, fn, reads[0]["id"]) or set()
     want = ("called", NS + "FileReader::Seek", (("mem", ("idx", ("mem", ("this",), "m_IndexEntries"), idx_t(fn)), "dataBlockOffset"),))
     n += 1
@@ -164,7 +171,7 @@ def member_extents(F, S):
     else:
         out.append(bad("R-MUSTCALL", VOL + "::GetSectionHeader#seek-first", fn.loc(reads[0]["id"]), fn.qn, req,
                        "calls passed before the read: " + ", ".join(sorted(fmt_fact(f) for f in site if f[0] == "called")) or "none"))
-    ex = eng.analyze(fn, frozenset())
+    ex = eng.analyze(fn0, frozenset())
     n += 1
     tagok = ex is not None and any(f[0] == "ev" and f[1] == "passed" and "TagVBLK" in str(f) for f in ex)
     if tagok:
